@@ -163,7 +163,27 @@ def fold( e, env=None ):
                     return v
             elif d in env:
                 return env[d]
+    if isinstance( e, ast.Attribute ):
+        # a field of a folded value: a key of a mapping ( the repository's dotdict reads a.b as a['b'] ) or an attribute of a plain record
+        try:
+            base = fold( e.value, env )
+        except NoFold:
+            base = NoFold
+        if isinstance( base, dict ) and e.attr in base:
+            return base[e.attr]
+        if isinstance( base, _Record ) and hasattr( base, e.attr ):
+            return getattr( base, e.attr )
     raise NoFold( ast.dump( e )[:80] )
+
+
+class _Record( object ):
+    """a plain record for decision tables: Record( struct_calcsize=4 ).struct_calcsize"""
+    def __init__( self, **kw ):
+        self.__dict__.update( kw )
+    def __repr__( self ):
+        return 'Record(%s)' % ', '.join( '%s=%r' % kv for kv in sorted( self.__dict__.items()))
+
+Record = _Record
 
 
 def _env_get( env, name ):
